@@ -97,7 +97,7 @@ func RunFamily(f *Family, tier string) int {
 	if err := sc.InitModule(); err != nil {
 		return infra(f.Prop, err)
 	}
-	units, mc, err := Enumerate(f, sc, devs)
+	units, mc, err := Enumerate(f, sc, devs, tier)
 	if err != nil {
 		return infra(f.Prop, err)
 	}
